@@ -66,6 +66,10 @@ def _cell(code):
         return [code]
     if k == 'str':
         return 'c%d' % code
+    if k == 'dup':
+        # the same text in every row of a field: which cell fails cannot be
+        # told from its value (the converter is given the row)
+        return 'same%d' % (code % 10)
     return code
 
 
@@ -143,7 +147,10 @@ class Faults(object):
 
     def conv(self, field):
         def f(v, *row):
-            rid = _code(v) // 10
+            if _CELLKIND[0] == 'dup':
+                rid = row[0][0]     # pass_row=True: the record comes along
+            else:
+                rid = _code(v) // 10
             if (rid, field) in self.fail:
                 e = self.cls(rid, field)
                 self.made.append(e)
@@ -221,8 +228,10 @@ def gen_case(rng, tier, g):
             'exc_kind': rng.choice(['plain', 'plain', 'stop', 'key', 'index',
                                     'type', 'attr']),
             'lazy': rng.random() < 0.5,
-            'cellkind': rng.choice(['int', 'int', 'tuple2', 'tuple3', 'list',
-                                    'str']) if form not in NATURAL
+            'cellkind': 'dup' if (form == 'convertpassrow'
+                                  and rng.random() < 0.5)
+            else rng.choice(['int', 'int', 'tuple2', 'tuple3', 'list',
+                             'str']) if form not in NATURAL
             else 'int',
             'extra_col': rng.random() < 0.5 and form != 'convertnumbers'}
 
